@@ -83,6 +83,34 @@ Fixpoint join (sep : str) (l : list str) : str :=
 Definition replace_all (old new s : str) : str :=
   match old with [] => s | _ => join new (split_str old s) end.
 
+(* str.replace for one- and two-character patterns, by structural recursion (leftmost, non-overlapping) *)
+Fixpoint replace1 (c : ascii) (new s : str) : str :=
+  match s with
+  | [] => []
+  | x :: r => if Ascii.eqb x c then new ++ replace1 c new r else x :: replace1 c new r
+  end.
+
+Fixpoint replace2 (a b : ascii) (new s : str) : str :=
+  match s with
+  | x :: t =>
+    match t with
+    | y :: r => if Ascii.eqb x a && Ascii.eqb y b then new ++ replace2 a b new r else x :: replace2 a b new t
+    | [] => s
+    end
+  | [] => s
+  end.
+
+Definition replace_pat (old new s : str) : str :=
+  match old with
+  | [c] => replace1 c new s
+  | [a; b] => replace2 a b new s
+  | _ => replace_all old new s
+  end.
+
+(* text.replace(a1, b1).replace(a2, b2)... *)
+Definition replace_chain (pairs : list (str * str)) (s : str) : str :=
+  fold_left (fun acc p => replace_pat (fst p) (snd p) acc) pairs s.
+
 Definition last_or {A} (d : A) (l : list A) : A := List.last l d.
 
 (* l[:-1] *)
